@@ -21,7 +21,7 @@ fn alphabet() -> Vec<Tok> {
 }
 
 pub fn run(ctx: &Ctx) -> Report {
-    let depth = ctx.tier.pick(6, 8);
+    let depth = ctx.tier.pick(7, 8);
     let sk = engine_in::sequences(&alphabet(), depth);
     let n_sk = sk.len();
     let tid = (ctx.seeded(10) as u128) << 8 | 1;
@@ -94,6 +94,20 @@ pub fn judge(case: &Case, acc: &mut Acc) {
         if g != w || h != w.is_some() {
             let clause = if g.is_some() && w.is_none() { "lookup-exposes-unauthenticated" } else { "lookup-hides-exposable" };
             viol!(acc, P, clause, case, format!("raw_attribute/has_attribute({t:#06x}) disagrees with the exposure rule"), format!("{:?}", w.map(|v| fmt_bytes(&v))), format!("{:?} has={h}", g.map(|v| fmt_bytes(&v))));
+        }
+    }
+    // typed extraction = first match on the exposed sequence as well (a lookup path of its own)
+    {
+        use crate::refimpl::attrs::Kind;
+        for (k, t) in [(Kind::Fingerprint, wire::FP), (Kind::MessageIntegrity, wire::MI), (Kind::MessageIntegritySha256, wire::MI256), (Kind::Software, 0x8022u16), (Kind::Username, 0x0006)] {
+            let w = want.iter().find(|(ty, _)| *ty == t).map(|(_, v)| v.clone());
+            let g = real::msg_attribute(&msg, k, m.tid);
+            match (&w, &g) {
+                (None, Err(real::PErr::MissingAttribute(_))) => {}
+                (None, Ok(_)) => viol!(acc, P, "lookup-exposes-unauthenticated", case, format!("attribute::<{}>() returns an attribute the exposure rule hides", k.name()), "MissingAttribute", format!("{g:?}")),
+                (Some(_), Err(real::PErr::MissingAttribute(_))) => viol!(acc, P, "lookup-hides-exposable", case, format!("attribute::<{}>() misses an exposed attribute", k.name()), "found", "MissingAttribute"),
+                _ => {} // value decoding itself is C08's business
+            }
         }
     }
     // FINGERPRINT of a message is always exposed
